@@ -8,6 +8,19 @@
 
 #define MODQ(val, q) ((val) % (q))
 
+#ifdef SPQLIOS_VERIF
+// verification hooks (ghost observers, compiled only with -DSPQLIOS_VERIF; they have no effect on the computation): report
+// the operands and partial products of term i, lane j of the a*a / b*b products, and the accumulators consumed by the final
+// recombination
+void spqlios_verif_q120_term(uint64_t i, uint64_t j, uint64_t x, uint64_t y, uint64_t p0, uint64_t p1, uint64_t p2, uint64_t p3);
+void spqlios_verif_q120_final(uint64_t j, uint64_t s1, uint64_t s2, uint64_t s3, uint64_t s4);
+#define SPQLIOS_VERIF_Q120_TERM(i, j, x, y, p0, p1, p2, p3) spqlios_verif_q120_term(i, j, x, y, p0, p1, p2, p3)
+#define SPQLIOS_VERIF_Q120_FINAL(j, s1, s2, s3, s4) spqlios_verif_q120_final(j, s1, s2, s3, s4)
+#else
+#define SPQLIOS_VERIF_Q120_TERM(i, j, x, y, p0, p1, p2, p3) ((void)0)
+#define SPQLIOS_VERIF_Q120_FINAL(j, s1, s2, s3, s4) ((void)0)
+#endif
+
 double comp_bit_size_red(const uint64_t h, const uint64_t qs[4]) {
   assert(h < 128);
   double h_pow2_bs = 0;
@@ -86,6 +99,7 @@ EXPORT void q120_vec_mat1col_product_baa_ref(q120_mat1col_product_baa_precomp* p
   for (uint64_t i = 0; i < 4 * ell; i += 4) {
     for (uint64_t j = 0; j < 4; ++j) {
       uint64_t t = x_ptr[i + j] * y_ptr[i + j];
+      SPQLIOS_VERIF_Q120_TERM(i, j, x_ptr[i + j], y_ptr[i + j], t, 0, 0, 0);
       acc1[j] += t & MASK;
       acc2[j] += t >> H;
     }
@@ -93,6 +107,7 @@ EXPORT void q120_vec_mat1col_product_baa_ref(q120_mat1col_product_baa_precomp* p
 
   uint64_t* const res_ptr = (uint64_t*)res;
   for (uint64_t j = 0; j < 4; ++j) {
+    SPQLIOS_VERIF_Q120_FINAL(j, acc1[j], acc2[j], 0, 0);
     res_ptr[j] = acc1[j] + acc2[j] * precomp->h_pow_red[j];
     assert(log2(res_ptr[j]) < precomp->res_bit_size);
   }
@@ -226,6 +241,7 @@ EXPORT void q120_vec_mat1col_product_bbb_ref(q120_mat1col_product_bbb_precomp* p
       const uint64_t dl = d & MASK1;
       const uint64_t dh = d >> H1;
 
+      SPQLIOS_VERIF_Q120_TERM(i, j, x_ptr[i + j], y_ptr[i + j], a, b, c, d);
       s1[j] += al;
       s2[j] += ah + bl + cl;
       s3[j] += bh + ch + dl;
@@ -238,6 +254,7 @@ EXPORT void q120_vec_mat1col_product_bbb_ref(q120_mat1col_product_bbb_precomp* p
 
   uint64_t* const res_ptr = (uint64_t*)res;
   for (uint64_t j = 0; j < 4; ++j) {
+    SPQLIOS_VERIF_Q120_FINAL(j, s1[j], s2[j], s3[j], s4[j]);
     const uint64_t s1l = s1[j] & MASK2;
     const uint64_t s1h = s1[j] >> H2;
     const uint64_t s2l = s2[j] & MASK2;
